@@ -1,4 +1,5 @@
 """All harness builds (used by --setup)."""
 import fam_chain
 import checks_misc
-BUILDS = {"chain": fam_chain.build, "p2prig": checks_misc.build_rig}
+BUILDS = {"chain": fam_chain.build, "p2prig": checks_misc.build_rig, "p2prig-race": lambda: checks_misc.build_rig(race=True),
+          "chain-race": lambda: fam_chain.c.build_harness(race=True, **fam_chain.HARNESS)}
